@@ -999,6 +999,15 @@ func doMemory(repo, outDir string) {
 				continue
 			}
 			pairs, err := copyPairs(fd)
+			if err == nil {
+				for _, pr := range pairs {
+					// only the forwarding of a wrapper to the wrapped Memory is a delegation the model knows; a memory
+					// model that hands its copies to methods of a region type of its own is a shape this reader does not follow
+					if pr[0] == "->" && !strings.HasPrefix(pr[1], "<Memory>.") {
+						err = fmt.Errorf("%s.%s delegates to %s", t, m, pr[1])
+					}
+				}
+			}
 			if err != nil {
 				fail("memory.snapshot", err)
 				okAll = false
@@ -1013,6 +1022,13 @@ func doMemory(repo, outDir string) {
 			continue
 		}
 		fields, err := zeroedFields(fd)
+		if err == nil {
+			for _, f := range fields {
+				if strings.HasPrefix(f, "->") && !strings.HasPrefix(f, "-><Memory>.") {
+					err = fmt.Errorf("%s.ClearStatistics delegates to %s", t, f[2:])
+				}
+			}
+		}
 		if err != nil {
 			fail("memory.clear", err)
 			okAll = false
